@@ -4,7 +4,7 @@ cryptography.*, twisted.*"""
 import types
 
 from .. import loader
-from . import struct_m, io_m, env_m, crypto_m, stubs_m, path_m
+from . import struct_m, io_m, env_m, crypto_m, stubs_m, path_m, json_m
 
 loader.MODELS['struct'] = struct_m.module
 loader.MODELS['io'] = io_m.module
@@ -13,6 +13,7 @@ loader.MODELS['os'] = env_m.os_module
 loader.MODELS['random'] = env_m.random_module
 loader.MODELS['binascii'] = env_m.binascii_module
 loader.MODELS['base64'] = env_m.base64_module
+loader.MODELS['json'] = json_m.module
 loader.MODELS['select'] = stubs_m.select_module
 loader.MODELS['socket'] = stubs_m.socket_module
 loader.MODELS['threading'] = stubs_m.threading_module
